@@ -624,7 +624,8 @@ class Gen(object):
                 save(max(1, n0 - 1) if n0 > 1 else 1), save(n0), load(),   # overwrite by a longer (or equal) record
                 save(n0, {"kind": rng.choice(["K6", "K7", "K8", "K12"]), "frac": rng.choice([0.0, 0.5, 0.9]), "errno": "ENOSPC"}),
                 save(n0), load(),                                    # after a failed save
-                load({"kind": "K9", "at": 0} if rng.random() < 0.5 else {"kind": "K10", "at": rng.choice([0, 1, 2])}),
+                load(rng.choice([{"kind": "K9", "at": 0}, {"kind": "K10", "at": rng.choice([0, 1, 2])},
+                                 {"kind": "K14", "at": 0, "when": rng.choice(["before", "after"])}])),
                 load()]                                              # after a failed load
         self.queue = plan
 
@@ -846,8 +847,12 @@ class Gen(object):
 
     def _read_fault(self):
         rng = self.rng
-        if rng.random() < 0.5:
+        c = rng.random()
+        if c < 0.4:
             return {"kind": "K9", "at": rng.choice([0, 0, 1, 2])}
+        if c < 0.7:
+            # an array-building call of the loader fails for want of memory (for a parser: at once, or after reading its input)
+            return {"kind": "K14", "at": rng.choice([0, 0, 0, 1, 2]), "when": rng.choice(["before", "after"])}
         return {"kind": "K10", "at": rng.choice([0, 1, 2, 3, 5, 10])}
 
 
